@@ -189,6 +189,21 @@ func ruleC19ListedFirst(c *Ctx) {
 	})
 	okAlways := len(targets) > 0 && mustPass(em.Blocks[0], through, targets)
 	c.R.Check(okAlways, rule, "second-pass:never-skipped", c.pos(sortCall), "every successful return passes through the collection and emission of the unlisted properties", "a successful return can be reached without emitting the unlisted properties (a shortcut skips the second pass): properties not named in PropertyOrder are dropped from the output")
+	// the first pass goes through the whole list: the loop is left early only to report an error
+	if h := loopHeaderOf(first.Block()); h != nil {
+		early := ""
+		for _, b := range em.Blocks {
+			if b == h || !inLoopOf(h, b) {
+				continue
+			}
+			for _, s := range b.Succs {
+				if !inLoopOf(h, s) && !blockReturnsErrorDeepLocal(s) {
+					early = c.pos(b.Instrs[len(b.Instrs)-1])
+				}
+			}
+		}
+		c.R.Check(early == "", rule, "first-pass:runs-to-the-end", c.pos(first), "the pass over the listed names is left early only to report an error", "the pass over the listed names can be left before the end of the list without an error (the exit at "+early+"): the listed names after that point lose their place and come out with the sorted remainder")
+	}
 	// order: nothing of the first pass can run after the second
 	c.R.Check(!core.ReachableFromInstr(second, first), rule, "passes:listed-then-rest", c.pos(second), "no listed name can be emitted after the remainder", "a listed name can be emitted after names of the remainder")
 }
@@ -288,6 +303,16 @@ func ruleC19Duplicates(c *Ctx) {
 		}
 	}
 	c.R.Check(rejects, rule, "second-occurrence-rejected", c.pos(lk), "a name already seen makes the check fail", "a second occurrence of a PropertyOrder name does not make the check fail")
+	// ... starting with the first entry
+	for _, src := range traceSources(mu.Key) {
+		if ld, ok := src.(*ssa.UnOp); ok {
+			if ia, ok := ld.X.(*ssa.IndexAddr); ok {
+				if start, ok := indexStart(ia.Index); ok {
+					c.R.Check(start == 0, rule, "from-the-first-entry", c.pos(ia), "the scan of PropertyOrder starts at its first entry", fmt.Sprintf("the scan of PropertyOrder starts at entry %d: the entries before it are never recorded as seen, so a later repetition of one of them is accepted and the property is written twice", start))
+				}
+			}
+		}
+	}
 	// the membership test and the recording happen for every element: both post-dominate the loop body entry (modulo the error return)
 	var header *ssa.BasicBlock
 	for d := mu.Block(); d != nil && header == nil; d = d.Idom() {
@@ -763,4 +788,52 @@ func emitName(call *ssa.Call) ssa.Value {
 		}
 	}
 	return call.Call.Args[0]
+}
+
+// loopHeaderOf: the header of the innermost natural loop containing b (nil: none).
+func loopHeaderOf(b *ssa.BasicBlock) *ssa.BasicBlock {
+	for d := b; d != nil; d = d.Idom() {
+		for _, pr := range d.Preds {
+			if d.Dominates(pr) && (pr == b || b == d || core.Reachable(b, pr, nil)) {
+				return d
+			}
+		}
+	}
+	return nil
+}
+
+// inLoopOf: b belongs to the natural loop headed by h.
+func inLoopOf(h, b *ssa.BasicBlock) bool {
+	return b == h || h.Dominates(b) && core.Reachable(b, h, nil)
+}
+
+// indexStart: the first value of a loop index (i, or i+1 of a range loop's hidden counter).
+func indexStart(idx ssa.Value) (int64, bool) {
+	add := int64(0)
+	if bo, ok := idx.(*ssa.BinOp); ok && bo.Op == token.ADD {
+		if k, ok := bo.Y.(*ssa.Const); ok {
+			if n, ok := constInt(k); ok {
+				add, idx = n, bo.X
+			}
+		}
+	}
+	phi, ok := idx.(*ssa.Phi)
+	if !ok {
+		return 0, false
+	}
+	var init *int64
+	for _, e := range phi.Edges {
+		if k, ok := e.(*ssa.Const); ok {
+			if n, ok := constInt(k); ok {
+				if init != nil && *init != n {
+					return 0, false
+				}
+				init = &n
+			}
+		}
+	}
+	if init == nil {
+		return 0, false
+	}
+	return *init + add, true
 }
